@@ -15,6 +15,13 @@ SgdStep values, hyper-parameters pairwise distinct.  Beyond the lattice the same
 re-run with float noise on every parameter and the spec's irrelevant cells
 (bootstrap part of terminated rows, steps after a termination) are perturbed /
 the batch is permuted with bitwise comparison.
+
+Configuration space of the MR.Q encoder and its loss: encoder_activation_in_last_layer, activation (relu / hard_tanh),
+normalize_targets, environment_terminates, the three weights and the horizon are TLC-chosen parameters; both encoders are
+built by the REAL ModelBasedEncoder constructor in that configuration (stubs.make_model_based_encoder_cfg; real encode_zs /
+encode_zsa / model_head; only the sub-networks are tables and zs_layer_norm an exact affine map that does not commute with
+the activation).  TLC chooses the RAW outputs of the target encoder's zs network and applies the documented stages itself
+(Losses.tla: Stage / ApplyStages / EncodeZsStages / DynTargetStages, invariant EncoderConfigLaw, deviation "tgtnoact").
 """
 from __future__ import annotations
 
@@ -31,12 +38,12 @@ from .. import exact, stubs, tlc
 LEVEL = "model_checking"
 MANIFEST = dict(
     category="model_checking",
-    text="Losses.tla transcribes the documented target and regression of every critic loss (DQN, Nature-DQN, DDQN, PER-DDQN, DDPG, TD3, TD3+LAP, SAC, TD7 critic update, MR.Q) and of the two representation losses (SALE embedding loss, MR.Q unrolled encoder loss) on exact rationals; TLC proves on the model, for every batch of the lattice, that terminated rows carry no bootstrap, that steps after a termination are ignored, permutation invariance, that the loss is a mean of per-sample terms and that only online parameters are reached by gradients, and refutes five named deviations (incl. two neighbouring hyper-parameters exchanged inside an update routine). The USE of the losses by their update routines is modelled too (update_model_based_encoder's scan over mini-batches with the weighted sum dw*L_dyn + rw*L_reward + tw*L_done per mini-batch, update_sale, MR.Q's update_critic_and_policy, td7_update_critic): with pairwise distinct non-default hyper-parameters and an SGD optimiser of dyadic learning rate the returned losses / auxiliary outputs and the parameter step (old - new) of the real routine equal TLC's values, and nothing but the trained module moves. Every TLC-generated vector (exhaustive small lattice + seeded random walks over the full lattice, batch sizes 1-4) is realised with table-lookup stub networks and replayed into the REAL functions; loss, auxiliary outputs and jax gradients w.r.t. every parameter group and the bootstrap inputs are compared with TLC's numbers exactly (==) for batch sizes 1, 2, 4; for batch size 3 (mean over 3 is not dyadic) within a counted rounding bound k * 2^-24 * sum |terms| taken over the terms that are added, never relative to the result. Function-level properties over all inputs cannot be exhausted, so model checking of the documented arithmetic plus exact replay is the right level.",
-    note="bounded lattices (dyadic values, batch size <= 4, 2-3 discrete actions, horizon <= 3; update routines: batch size 2/4, 1-2 mini-batches on disjoint rows, plain SGD); network forward passes are inputs (stubs); two-hot reward cross-entropy only for uniform logits (value = coefficient * ln #bins within 24 counted roundings of its non-negative terms); off-lattice floats only relationally (bitwise irrelevance / permutation); trusted: harness/stubs.py realisation, Exact.tla, TLC",
+    text="Losses.tla transcribes the documented target and regression of every critic loss (DQN, Nature-DQN, DDQN, PER-DDQN, DDPG, TD3, TD3+LAP, SAC, TD7 critic update, MR.Q) and of the two representation losses (SALE embedding loss, MR.Q unrolled encoder loss) on exact rationals; the configuration of the MR.Q encoder is part of the model (encoder_activation_in_last_layer x activation in {relu, hard_tanh} x normalize_targets x environment_terminates x weights x horizon; encode_zs = [activation] o layer norm o zs as named stages applied by TLC to the raw outputs of the target encoder's zs network; both encoders are built by the real ModelBasedEncoder constructor in the chosen configuration and its real encode_zs / encode_zsa / model_head run); TLC proves on the model, for every batch of the lattice, that terminated rows carry no bootstrap, that steps after a termination are ignored, permutation invariance, that the loss is a mean of per-sample terms and that only online parameters are reached by gradients, that the dynamics targets are exactly the target encoder's encode_zs (resp. raw zs) outputs, and refutes six named deviations (incl. two neighbouring hyper-parameters exchanged inside an update routine and a hand-rolled encode_zs that forgets the activation of the last layer). The USE of the losses by their update routines is modelled too (update_model_based_encoder's scan over mini-batches with the weighted sum dw*L_dyn + rw*L_reward + tw*L_done per mini-batch, update_sale, MR.Q's update_critic_and_policy, td7_update_critic): with pairwise distinct non-default hyper-parameters and an SGD optimiser of dyadic learning rate the returned losses / auxiliary outputs and the parameter step (old - new) of the real routine equal TLC's values, and nothing but the trained module moves. Every TLC-generated vector (exhaustive small lattice + seeded random walks over the full lattice, batch sizes 1-4) is realised with table-lookup stub networks and replayed into the REAL functions; loss, auxiliary outputs and jax gradients w.r.t. every parameter group and the bootstrap inputs are compared with TLC's numbers exactly (==) for batch sizes 1, 2, 4; for batch size 3 (mean over 3 is not dyadic) within a counted rounding bound k * 2^-24 * sum |terms| taken over the terms that are added, never relative to the result. Function-level properties over all inputs cannot be exhausted, so model checking of the documented arithmetic plus exact replay is the right level.",
+    note="bounded lattices (dyadic values, batch size <= 4, 2-3 discrete actions, horizon <= 3; update routines: batch size 2/4, 1-2 mini-batches on disjoint rows, plain SGD); network forward passes are inputs (stubs; the encoder's layer norm is an exact affine stand-in, gain 2 / bias -1/4, its activation relu or hard_tanh - elu and nnx.LayerNorm numerics are not judged); two-hot reward cross-entropy only for uniform logits (value = coefficient * ln #bins within 24 counted roundings of its non-negative terms); off-lattice floats only relationally (bitwise irrelevance / permutation); trusted: harness/stubs.py realisation, Exact.tla, TLC",
     technique="TLA+ spec + TLC (exhaustive invariants on the model, deviation canaries, vector generation); replay of TLC-generated vectors into the real loss functions and their update routines with stub nnx modules, exact value, gradient and SGD-step comparison",
 )
 
-INVS = ["TypeOK", "TerminatedNoBootstrap", "AfterTermIgnored", "PermutationInvariant", "PerSample", "GradSupport"]
+INVS = ["TypeOK", "TerminatedNoBootstrap", "AfterTermIgnored", "PermutationInvariant", "PerSample", "GradSupport", "EncoderConfigLaw"]
 UPD_INVS = INVS + ["UpdEachWeightItsOwnTerm", "UpdScalesInRole"]
 ALL_KINDS = ["dqn", "nature", "ddqn", "per", "ddpg", "td3", "lap", "sac", "td7", "mrq", "sale", "enc"]
 # update routines: the USE of a loss (differentiate, apply with the caller's optimiser, return); spec operator Base(k)
@@ -84,6 +91,38 @@ def avg_l1(v):
     """AvgL1Norm on rows whose mean |.| is a power of two (exact in float32)."""
     v = np.asarray(v, dtype=np.float32)
     return v / np.mean(np.abs(v), axis=-1, keepdims=True)
+
+
+# ---- configuration of the MR.Q encoder: everything comes from the specification (record `enc` of a vector: activation name,
+# constants of the layer-norm stand-in, encoder_activation_in_last_layer, stage lists in the documented order)
+STAGE_NP = {
+    "zs_layer_norm": lambda cfg, v: (np.float32(cfg["gain"]) * v + np.float32(cfg["shift"])).astype(np.float32),
+    "activation": lambda cfg, v: {"relu": lambda x: np.maximum(x, np.float32(0.0)), "hard_tanh": lambda x: np.clip(x, np.float32(-1.0), np.float32(1.0))}[cfg["activation"]](v).astype(np.float32),
+}
+
+
+def enc_cfg(vec):
+    """Encoder configuration of a vector as the binding uses it (both encoders are built by the REAL ModelBasedEncoder
+    constructor with these arguments, see stubs.make_model_based_encoder_cfg)."""
+    e = vec["enc"]
+    if bool(e["actlast"]) != bool(vec["par"]["actlast"]):
+        raise tlc.MachineryError("binding: emitted encoder configuration disagrees with the vector's parameters")
+    return {"activation": e["activation"], "gain": fl(e["ln_gain"]), "shift": fl(e["ln_bias"]), "actlast": bool(e["actlast"]),
+            "encode_zs": list(e["encode_zs"]), "dyn_target": list(e["dyn_target"])}
+
+
+def apply_stages(cfg, names, v):
+    """The specification's stage list `names` applied (in TLC's order) to raw outputs of a zs table - used only to REALISE
+    TLC's numbers (solve table cells); expected values never come from here."""
+    v = np.asarray(v, dtype=np.float32)
+    for nm in names:
+        v = STAGE_NP[nm](cfg, v)
+    return v
+
+
+def make_encoder(cfg, l, zsa_module=None):
+    return stubs.make_model_based_encoder_cfg(l["zs.kernel"], l["za.kernel"], l["zsa.kernel"], l["model.kernel"], 2, cfg["activation"],
+                                              cfg["actlast"], cfg["gain"], cfg["shift"], zsa_module=zsa_module)
 
 
 # ---- non-dyadic batch sizes (mean over 3 rows): COUNTED rounding bounds, never "ulps of the result".
@@ -360,6 +399,7 @@ def realise(vec, rng) -> Case:
         A = 2 * n
         act = stubs.onehot(np.arange(n), A)
         nact = stubs.onehot(np.arange(n, 2 * n), A)
+        cfg = enc_cfg(vec)
         encs = []
         for _ in range(2):
             E = fill(rng, (S, 2))
@@ -373,7 +413,7 @@ def realise(vec, rng) -> Case:
             kz = fill(rng, (2,))
             ka = fill(rng, (A,))
             for i in range(n):
-                ka[base + i] = qs[i] - float((2.0 * e["zs.kernel"][base + i]) @ e["zsa.kernel"][:2, :2] @ kz)
+                ka[base + i] = qs[i] - float(apply_stages(cfg, cfg["encode_zs"], e["zs.kernel"][base + i]) @ e["zsa.kernel"][:2, :2] @ kz)
             return np.concatenate([kz, ka])[:, None].astype(np.float32)
 
         on = [critic([fl(rw["x"]["q%d" % (j + 1)]) for rw in rows], encs[0], 0) for j in range(2)]
@@ -409,7 +449,7 @@ def realise(vec, rng) -> Case:
                     "encoder": [(2, kk) for kk in encs[0]], "encoder_target": [(3, kk) for kk in encs[1]],
                     "next_action": [("arr", "nact")], "next_obs": [("arr", "nobs")]}
         c.boot = [[((1, "q1.kernel"), (2 + n + i,)), ((1, "q2.kernel"), (2 + n + i,)), ((3, "zs.kernel"), (n + i,)), (("arr", "nact"), (i,))] for i in range(n)]
-        c.aux["h"] = h
+        c.aux.update(h=h, enccfg=cfg)
     elif k == "sale":
         act = stubs.onehot(np.arange(n), n)
         E = ZRAW[rng.integers(0, len(ZRAW), size=S)].copy()
@@ -436,6 +476,7 @@ def realise(vec, rng) -> Case:
         A = n * h
         nb = len(BINS)
         normtgt = bool(par["normtgt"])
+        cfg = enc_cfg(vec)
         E = fill(rng, (S, 2))
         Et = fill(rng, (S, 2))
         Gz = fill(rng, (2, 2))
@@ -453,10 +494,11 @@ def realise(vec, rng) -> Case:
         act3 = np.zeros((n, h, A), dtype=np.float32)
         c.boot = []
         for i, rw in enumerate(rows):
-            z = 2.0 * E[i]
+            z = apply_stages(cfg, cfg["encode_zs"], E[i])  # f(o_0) of the online encoder: the spec's stages of encode_zs
             pz = [np.array(vecf(v), dtype=np.float32) for v in seq(rw["x"]["pz"])]
             pd = vecf(rw["x"]["pd"])
-            tz = [np.array(vecf(v), dtype=np.float32) for v in seq(rw["b"]["tz"])]
+            tz = [np.array(vecf(v), dtype=np.float32) for v in seq(rw["b"]["tz"])]  # RAW outputs of the target encoder's zs network
+            _check_stage_maps(cfg, tz, seq(alt0["tgt"])[i])
             cells = []
             for t in range(h):
                 j = i * h + t
@@ -464,7 +506,7 @@ def realise(vec, rng) -> Case:
                 base = (z @ Gz) @ M[:2, :3]
                 M[2 + j, 0] = pd[t] - base[0]
                 M[2 + j, 1:3] = pz[t] - base[1:3]
-                Et[sn] = tz[t] / 2.0 if normtgt else tz[t]
+                Et[sn] = tz[t]
                 obs3[i, t, i if t == 0 else n + j - 1] = 1.0
                 nobs3[i, t, sn] = 1.0
                 act3[i, t, j] = 1.0
@@ -495,10 +537,18 @@ def realise(vec, rng) -> Case:
         c.groups = {"encoder@obs": [((0, "zs.kernel"), 0, n)], "encoder@next": [((0, "zs.kernel"), n, S)], "encoder_model": [(0, "model.kernel")],
                     "encoder_target": [(1, kk) for kk in enct], "next_obs": [("arr", "nobs")]}
         c.tol_grad = {(0, "model.kernel"): tM}
-        c.aux.update(h=h, normtgt=normtgt, gd_bc=gMb[:, 0], gd_bc_tol=tMb)
+        c.aux.update(h=h, normtgt=normtgt, gd_bc=gMb[:, 0], gd_bc_tol=tMb, enccfg=cfg)
     else:  # pragma: no cover
         raise tlc.MachineryError(f"unknown kind {k}")
     return _check_groups(c, vec, k)
+
+
+def _check_stage_maps(cfg, raws, tgts):
+    """The stage maps of the binding (STAGE_NP, = the sub-modules handed to the real encoder) are the specification's: the
+    documented target stages applied to the raw outputs reproduce TLC's target table for this row."""
+    for raw, tg in zip(raws, seq(tgts)):
+        if apply_stages(cfg, cfg["dyn_target"], raw).tolist() != vecf(tg):
+            raise tlc.MachineryError(f"binding: stage maps {cfg} do not reproduce the specification's targets ({raw.tolist()} -> {vecf(tg)})")
 
 
 def _check_groups(c, vec, k):
@@ -622,12 +672,12 @@ def build_modules(case: Case):
             stubs.make_double_q(sc(lv[3], "q1"), sc(lv[3], "q2")),
         ]
     if k == "mrq":
-        e = lambda l: stubs.make_model_based_encoder(l["zs.kernel"], l["za.kernel"], l["zsa.kernel"], l["model.kernel"], 2)
+        e = lambda l: make_encoder(case.aux["enccfg"], l)
         return [stubs.make_double_q(LT(lv[0]["q1.kernel"]), LT(lv[0]["q2.kernel"])), stubs.make_double_q(LT(lv[1]["q1.kernel"]), LT(lv[1]["q2.kernel"])), e(lv[2]), e(lv[3])]
     if k == "sale":
         return [stubs.make_sale(lv[0]["_state_embedding.kernel"], lv[0]["state_action_embedding.kernel"])]
     if k == "enc":
-        e = lambda l: stubs.make_model_based_encoder(l["zs.kernel"], l["za.kernel"], l["zsa.kernel"], l["model.kernel"], 2)
+        e = lambda l: make_encoder(case.aux["enccfg"], l)
         ms = [e(lv[0]), e(lv[1])]
         if case.aux.get("table"):  # state-action layer on the action code only (update routine over several mini-batches)
             for m, l in zip(ms, lv):
@@ -862,6 +912,7 @@ def realise_enc_table(vec, rng) -> Case:
     S = R + R * h
     A = R * h
     normtgt = bool(par["normtgt"])
+    cfg = enc_cfg(vec)
     lr, rwt = fl(par["lr"]), fl(par["rw"])
     c = Case(vec=vec, kind="encupd", n=n, leaves=[], arrays={})
     E = fill(rng, (S, 2))
@@ -877,14 +928,15 @@ def realise_enc_table(vec, rng) -> Case:
     for i, rw in enumerate(rows):
         pz = [np.array(vecf(v), dtype=np.float32) for v in seq(rw["x"]["pz"])]
         pd = vecf(rw["x"]["pd"])
-        tz = [np.array(vecf(v), dtype=np.float32) for v in seq(rw["b"]["tz"])]
+        tz = [np.array(vecf(v), dtype=np.float32) for v in seq(rw["b"]["tz"])]  # RAW outputs of the target encoder's zs network
+        _check_stage_maps(cfg, tz, seq(alt0["tgt"])[i])
         cells = []
         for t in range(h):
             j = i * h + t
             sn = R + j
             M[j, 0] = pd[t]
             M[j, 1:3] = pz[t]
-            Et[sn] = tz[t] / 2.0 if normtgt else tz[t]
+            Et[sn] = tz[t]
             obs3[i, t, i if t == 0 else R + j - 1] = 1.0
             nobs3[i, t, sn] = 1.0
             act3[i, t, j] = 1.0
@@ -913,7 +965,7 @@ def realise_enc_table(vec, rng) -> Case:
     c.groups = {"encoder@obs": [((0, "zs.kernel"), 0, R)], "encoder@next": [((0, "zs.kernel"), R, S)], "encoder_model": [(0, "model.kernel")],
                 "encoder_target": [(1, kk) for kk in enct], "next_obs": [("arr", "nobs")]}
     c.tol_grad = {(0, "model.kernel"): tM}
-    c.aux.update(h=h, normtgt=normtgt, gd_bc=sMb, gd_bc_tol=np.zeros(A), table=True)
+    c.aux.update(h=h, normtgt=normtgt, gd_bc=sMb, gd_bc_tol=np.zeros(A), table=True, enccfg=cfg)
     return _check_groups(c, vec, "enc")
 
 
@@ -1172,13 +1224,21 @@ def check_enc(case: Case, out, grads, rep, stats, rinfo):
     kc = 0 if dyadic_n(n) else K_MEAN + (h - 1)
     tol_c = lambda x: kc * U * abs(fl(x))
     ok = True
-    ctx = f"(batch size {n}, horizon {case.aux['h']}, weights dyn/rew/done={fq(par['dw'])}/{fq(par['rw'])}/{fq(par['tw'])}, environment_terminates={par['envterm']}, normalize_targets={par['normtgt']}) terminated={case.arrays['term'].tolist()}"
+    ecfg = case.aux["enccfg"]
+    ctx = (f"(batch size {n}, horizon {case.aux['h']}, weights dyn/rew/done={fq(par['dw'])}/{fq(par['rw'])}/{fq(par['tw'])}, environment_terminates={par['envterm']}, "
+           f"normalize_targets={par['normtgt']}, encoders built with activation='{ecfg['activation']}', encoder_activation_in_last_layer={par['actlast']}) terminated={case.arrays['term'].tolist()}")
     if upd:
         ctx = (f"[through the update routine: target_delay={par['td']} mini-batch(es), SGD lr={fq(par['lr'])}; returned (total, dyn, reward, done, rmse) = "
                f"{[float(out[x]) for x in ('loss', 'dyn', 'rew', 'done', 'rmse')]}] " + ctx)
     if not close_abs(out["dyn"], alt["dyn"], tol_c(alt["dyn"])):
         ok = False
-        rep.violation(f"{fname}:dynamics_loss", f"dynamics loss {float(out['dyn'])!r} != {fq(alt['dyn'])} {ctx}", rinfo)
+        # named deviation of the specification (classification only): targets = zs_layer_norm(zs(o')) without the activation
+        noact = fq(alt["dyn_noact"]) != fq(alt["dyn"]) and close_abs(out["dyn"], alt["dyn_noact"], tol_c(alt["dyn_noact"]))
+        doc = (f"documented targets: stop_gradient of {case.vec['enc']['dyn_target_encoder']}'s zs output passed through {ecfg['dyn_target'] or 'nothing'}"
+               f" (= encode_zs when normalize_targets) -> per row-step {[[vecf(z) for z in seq(r)] for r in seq(alt['tgt'])]}")
+        key = f"{fname}:dynamics_target_not_encode_zs" if noact else f"{fname}:dynamics_loss"
+        rep.violation(key, f"dynamics loss {float(out['dyn'])!r} != {fq(alt['dyn'])}" + (f" but equals {fq(alt['dyn_noact'])}: the targets are zs_layer_norm(zs(o')) WITHOUT the activation "
+                      f"that encode_zs applies when the encoder is built with encoder_activation_in_last_layer=True (predictions live in the activated latent space)" if noact else "") + f"; {doc} {ctx}", rinfo)
     done_bc = False
     if not close_abs(out["done"], alt["done"], tol_c(alt["done"])):
         ok = False
@@ -1240,7 +1300,10 @@ def check_enc(case: Case, out, grads, rep, stats, rinfo):
 def _short(par, kind):
     keep = {"lap": ["gamma", "delta"], "sac": ["gamma", "alpha"], "td7": ["gamma", "delta", "lo", "hi"], "mrq": ["gamma", "rs", "trs"],
             "mrqupd": ["gamma", "rs", "trs", "lr"], "saleupd": ["lr"], "encupd": ["dw", "rw", "tw", "lr"]}.get(kind, ["gamma"])
-    return {k: str(fq(par[k])) for k in keep}
+    out = {k: str(fq(par[k])) for k in keep}
+    if kind in ("mrq", "mrqupd", "enc", "encupd"):  # configuration of the two encoders
+        out |= {"encoder_activation_in_last_layer": par["actlast"], "activation": par["act"]}
+    return out
 
 
 PER_SAMPLE = ("ptd", "y")
@@ -1298,12 +1361,14 @@ def group_key(c: Case):
     k = c.kind
     shape = tuple((nm, np.shape(v)) for nm, v in sorted(c.arrays.items())) + tuple((mi, kk, np.shape(v)) for mi, lv in enumerate(c.leaves) for kk, v in sorted(lv.items()))
     extra = (c.aux.get("h"), c.aux.get("normtgt")) if k == "enc" else ()
+    if k in ("enc", "mrq"):  # the encoders' configuration is static (constructor arguments)
+        extra += (c.aux["enccfg"]["actlast"], c.aux["enccfg"]["activation"], c.aux["enccfg"]["gain"], c.aux["enccfg"]["shift"])
     if k == "td7":
         extra = (fl(c.vec["par"]["gamma"]), fl(c.vec["par"]["delta"]))
     if k in UPD_BASE:  # static arguments / optimiser of the routine: one jit specialisation per group
         par = c.vec["par"]
-        extra = tuple((nm, par[nm] if isinstance(par[nm], (bool, int)) else fl(par[nm])) for nm in
-                      {"encupd": ("dw", "rw", "tw", "envterm", "normtgt", "lr", "td"), "saleupd": ("lr",), "mrqupd": ("gamma", "lr")}[k]) + (c.aux.get("h"), c.aux.get("table"))
+        extra = tuple((nm, par[nm] if isinstance(par[nm], (bool, int, str)) else fl(par[nm])) for nm in
+                      {"encupd": ("dw", "rw", "tw", "envterm", "normtgt", "actlast", "act", "lr", "td"), "saleupd": ("lr",), "mrqupd": ("gamma", "lr", "actlast", "act")}[k]) + (c.aux.get("h"), c.aux.get("table"))
     return (k, c.n, shape, extra)
 
 
@@ -1401,6 +1466,8 @@ def spec_canaries(pool):
         ("nosg", {"dqn"}, "GradSupport"),
         ("encbroadcast", {"enc"}, "PerSample"),
         ("encbroadcast", {"enc"}, "AfterTermIgnored"),
+        # encode_zs re-implemented by hand for the dynamics targets, activation of the last layer forgotten
+        ("tgtnoact", {"enc"}, "EncoderConfigLaw"),
         # two neighbouring scalar hyper-parameters exchanged in the inner positional call of an update routine
         ("updswap", {"encupd"}, "UpdEachWeightItsOwnTerm"),
         ("updswap", {"mrqupd"}, "UpdScalesInRole"),
@@ -1458,6 +1525,22 @@ def binding_canary(rep, vectors, failed=frozenset()):
         for w in want:
             if not any(w in k for k in keys):
                 raise tlc.MachineryError(f"binding canary: corrupted expectation ({kind}, {w}) not noticed; got {keys}")
+    # encoder configuration: TLC's expectation for encoders built with encoder_activation_in_last_layer=True, the REAL encoders
+    # built without it (nothing else changed): the dynamics targets lose their activation stage - must be noticed and named
+    cands = [v for v in vectors if v["kind"] == "enc" and v["n"] == 2 and canon(v) not in failed and v["par"]["actlast"] and v["par"]["normtgt"]
+             and fq(v["alts"][0]["dyn_noact"]) != fq(v["alts"][0]["dyn"])]
+    if not cands and not failed and any(v["kind"] == "enc" for v in vectors):
+        raise tlc.MachineryError("binding canary: no encoder-loss vector whose targets depend on the activation of the last layer")
+    if cands:
+        bad = json.loads(json.dumps(cands[0]))
+        bad["par"]["actlast"] = False
+        bad["enc"]["actlast"] = False
+        bad["enc"]["encode_zs"] = [nm for nm in bad["enc"]["encode_zs"] if nm != "activation"]
+        scratch = Report("C03", rep.tier, rep.seed)
+        evaluate(scratch, [bad], new_stats(), variants_every=10**9)
+        keys = [x["key"] for x in scratch.violations]
+        if "model_based_encoder_loss:dynamics_target_not_encode_zs" not in keys:
+            raise tlc.MachineryError(f"binding canary: encoders built without the activation of the last layer not noticed; got {keys}")
     # update routines: a corrupted returned component / loss and a corrupted SGD step must be noticed
     upicks = {}
     for v in vectors:
@@ -1604,7 +1687,9 @@ def run(rep):
         "realised with stub networks and replayed once (plus noise / irrelevant-cell perturbation / permutation variants for every 3rd-4th vector); "
         "the update routines (update_model_based_encoder over 1-2 mini-batches, update_sale, update_critic_and_policy; td7_update_critic is kind td7) get "
         "their own walks with curated, pairwise distinct non-default hyper-parameters and an SGD optimiser with dyadic learning rate: returned losses and "
-        "old - new parameters are compared with TLC's values"
+        "old - new parameters are compared with TLC's values; the MR.Q kinds (enc, encupd, mrq, mrqupd) additionally range over the encoder configuration "
+        "(encoder_activation_in_last_layer, activation relu / hard_tanh, normalize_targets, environment_terminates): small lattice all four "
+        "(normalize_targets, activation-in-last-layer) pairs, full lattice the product"
     )
     for v in [u for u in uniq if u["n"] >= 2 and nontrivial(u)][:: max(1, len(uniq) // 3)][:3]:
         rep.sample({"kind": v["kind"], "n": v["n"], "par": _short(v["par"], v["kind"]), "rows": v["rows"], "expected": v["alts"][0]})
@@ -1621,6 +1706,9 @@ def run(rep):
         "update routines: SGD(lr in {1/2, 1}) supplied by the binding, batch sizes 2 and 4, target_delay 1-2; over several mini-batches the encoder's model head is a table "
         "lookup on the row-step (state-action layer ignores the latent state) and no row is drawn twice, so mini-batches do not interact; reward-logit cells of the step "
         "within 8 counted roundings, everything else ==; the policy part of update_critic_and_policy is not judged (not a C03 loss)",
+        "MR.Q encoders: real ModelBasedEncoder constructor and methods in the TLC-chosen configuration; sub-networks are tables, zs_layer_norm is the exact affine map "
+        "x -> 2x - 1/4 of the specification (LNorm), activations relu / hard_tanh (exact on dyadics); TLC computes the dynamics targets from the raw zs outputs, the "
+        "binding applies the specification's stage lists only to realise TLC's numbers (solving table cells for f(o_0))",
         "trusted: harness/stubs.py, realisation code in c03.py, Exact.tla, TLC",
     ]
 
